@@ -4,6 +4,7 @@ import (
 	"fmt"
 	"math"
 	"strings"
+	"unicode/utf8"
 )
 
 // Reference model: a plain in-memory account of what every table of every
@@ -41,8 +42,8 @@ func NewModel() *Model { return &Model{DBs: map[string]*MDB{}} }
 // invalidDBName: a database name is one path element; anything that is a path
 // (written as a quoted identifier) names no database and can create none.
 func invalidDBName(n string) bool {
-	n = strings.Trim(n, "\"")
-	return n == "" || n == "." || n == ".." || strings.ContainsAny(n, "/\\\x00")
+	n = rawName(strings.Trim(n, "\""))
+	return n == "" || n == "." || n == ".." || strings.ContainsAny(n, "/\\\x00") || !utf8.ValidString(n)
 }
 
 func (m *Model) Clone() *Model {
